@@ -1,6 +1,6 @@
 /- line-protocol handlers for the detection / dispatch model (first token MAGIC; used by C01 and C11).
-   The content of a file reaches the model as its first min(len, 4096) bytes (`detect_prefix_determined` is what makes
-   that enough), its length, and what archive/zip lists for it. -/
+   The content of a file reaches the model as a prefix (65540 bytes of a file that starts with MZ, 4096 of any other:
+   `detect_agree_on_inspected` is what makes that enough), its length, and what archive/zip lists for it. -/
 import Relic.Model.Magic
 namespace Relic.Driver.Magic
 open Relic Relic.Magic
